@@ -311,6 +311,9 @@ func runRoundScenario(seed uint64, size int, t *Trace) error {
 					if j != i {
 						cs := st.Servers[fs[j].key.Pub]
 						as := server.AuthorizedServer{PublicKey: fs[j].key.Pub, Banned: true, Location: myIP, HttpPort: 5, TcpPort: cs.TcpPort, UdpPort: cs.UdpPort}
+						if as.Banned && r.Chance(30) {
+							as.Location, as.HttpPort, as.TcpPort, as.UdpPort = "", 0, 0, 0 // a ban that names nothing but the key
+						}
 						as.GCAAuthorization = glow.Sign(as.SigningBytes(), signer)
 						list = append(list, as)
 					}
@@ -320,6 +323,9 @@ func runRoundScenario(seed uint64, size int, t *Trace) error {
 					if r.Chance(40) {
 						cs := st.Servers[fs[j].key.Pub]
 						as := server.AuthorizedServer{PublicKey: fs[j].key.Pub, Banned: r.Chance(50), Location: myIP, HttpPort: uint16(2 + r.Intn(3)), TcpPort: cs.TcpPort, UdpPort: cs.UdpPort}
+						if as.Banned && r.Chance(30) {
+							as.Location, as.HttpPort, as.TcpPort, as.UdpPort = "", 0, 0, 0 // a ban that names nothing but the key
+						}
 						as.GCAAuthorization = glow.Sign(as.SigningBytes(), signer)
 						list = append(list, as)
 					}
